@@ -295,12 +295,20 @@ def run : Handler := fun req => do
   let inp ← field req "in"
   let m ← memberOf inp
   let impl ← field req "impl"
-  let model := obsJson (observe m (convert m))
+  -- a bare `$ref` member with sibling keywords: the generator works from the member WITHOUT them (finding F17-7, as in tie E);
+  -- the judge keeps the declared member
+  let bare := fieldD inp "ref" Json.null == Json.str "bare"
+  let mSeen : Member := if bare then { m with dflt := none, const := none, enumOne := none } else m
+  let model := obsJson (observe mSeen (convert mSeen))
   let o ← obsOf impl
   -- canonical re-rendering of the implementation's observation (numbers normalised)
   let implC := obsJson o
-  let judge := judgeObs m o "on the compiled type, decode-omitted / Default / builder-unset / encode do not all give the declared default"
-  pure (answer model implC judge (memberBranch m))
+  let judge :=
+    if bare && WF m && !(J m o) then
+      verdict false (if model == implC && (m.dflt.isSome || m.const.isSome) then ["KnownRefSiblingDropped"] else [])
+        "the member is a `$ref` with a sibling `default` / `const`: the compiled member has no default at all"
+    else judgeObs m o "on the compiled type, decode-omitted / Default / builder-unset / encode do not all give the declared default"
+  pure (answer model implC judge (memberBranch m ++ (if bare then "+bare-ref" else "")))
 
 def ops : List (String × Handler) :=
   [("dflt.literal", literal), ("dflt.extract", extract), ("dflt.member", member), ("dflt.run", run)]
